@@ -91,6 +91,8 @@ def judge (line impl : String) : String :=
 
 def gen (seed n : Nat) (tier : String) (emit : String → IO Unit) : IO Unit := do
   genSmall "c08" (tier == "thorough") emit
+  genUnwindSmall "c08" emit
+  genNamedKinds "c08" seed emit
   let mut r := Rng.mk' seed
   for _ in List.range n do
     let (l, r') := genCase "c08" r
@@ -98,6 +100,10 @@ def gen (seed n : Nat) (tier : String) (emit : String → IO Unit) : IO Unit := 
     emit l
   for _ in List.range (n / 10) do
     let (l, r') := genCycDisj "c08" r
+    r := r'
+    emit l
+  for _ in List.range (n / 5) do
+    let (l, r') := genUnwindWrapped "c08" r
     r := r'
     emit l
 
